@@ -496,8 +496,15 @@ func ruleX4(p *Program, r *Reporter) {
 					return false
 				}
 				g := cc.Call.StaticCallee()
-				if g == nil || pkgOf(g) != pkgOf(fn) || len(g.Blocks) == 0 || g.Signature.Results().Len() != 1 ||
-					!isNamed(g.Signature.Results().At(0).Type(), repoMod+"/ovsdb", "OperationResult") {
+				if g == nil || pkgOf(g) != pkgOf(fn) || len(g.Blocks) == 0 || g.Signature.Results().Len() != 1 {
+					return false
+				}
+				// it hands back a result, or the list of results with the new one in it
+				rt := g.Signature.Results().At(0).Type()
+				if sl, isSl := rt.Underlying().(*types.Slice); isSl {
+					rt = sl.Elem()
+				}
+				if !isNamed(rt, repoMod+"/ovsdb", "OperationResult") {
 					return false
 				}
 				gesc, _ := escapesWithoutFrom(g, g.Blocks[0], isRfe)
